@@ -878,6 +878,8 @@ func run(e *hk.Env) error {
 	}
 	e.Stats["long_input_cases"] = nlong
 	e.Stats["long_input_sizes"] = append(append([]int(nil), sizes...), bigSizes...)
+	// 4f. values of standard-library types (TextMarshaler / Stringer / error) carrying hostile bytes
+	e.Stats["stdlib_value_cases"] = r.stdSweep()
 	// 5. random attribute trees, chains, levels, source on/off, three entry points
 	nrand := 12000
 	if e.Thorough() {
